@@ -672,10 +672,15 @@ Definition show_mkey (k : mkey) : str :=
 (* Value::format of a folded constant (mod.rs 476-503, format_map 34-58); strings inside
    containers are written with `{:?}` — modelled for strings without characters that Debug
    escapes (the generators only use such strings) *)
+(* `{:?}` of an f64 keeps a trailing `.0` where `{}` drops it: the Display text of an integral
+   float consists of digits (and a sign) only *)
+Definition float_debug (d : str) : str :=
+  if forallb (fun ch => ((48 <=? ch) && (ch <=? 57)) || (ch =? 45))%N d then d ++ [46%N; 48%N] else d.
+
 Fixpoint show_cval (c : const) : str :=
   match c with
   | CInt z => dec_Z z
-  | CFloat d => d
+  | CFloat d => float_debug d
   | CStr s => s
   | CBool b => show_bool b
   | CNone => []
@@ -696,6 +701,7 @@ Fixpoint show_cval (c : const) : str :=
 Definition show_const (c : const) : str :=
   match c with
   | CStr s => quoted 39%N s
+  | CFloat d => d              (* `{}` of the f64 *)
   | CNone => s2l "null"
   | CArr l =>
       [91%N] ++ join comma_sp (map (fun x => match x with CStr s => quoted 34%N s | _ => show_cval x end) l) ++ [93%N]
